@@ -10,7 +10,7 @@
 From Coq Require Import String ZArith QArith Bool Arith List Permutation Sorted.
 From GT Require Import Base.UTree Spec.Obs Model.Reroot Spec.Unrooted
      Proofs.RerootBase Model.Matrix Proofs.MatrixWalk Proofs.MatrixCells Proofs.MatrixMain
-     Spec.Cut Proofs.CutBase Proofs.CutSem Proofs.CutSpec Proofs.CutPaths Judge.C14 Proofs.MatrixOracle Proofs.CutUF Proofs.CutReps Proofs.CutUnion.
+     Spec.Cut Proofs.CutBase Proofs.CutSem Proofs.CutSpec Proofs.CutPaths Judge.C14 Proofs.MatrixOracle Proofs.CutUF Proofs.CutReps Proofs.CutUnion Proofs.CutRoot1 Proofs.MatrixRelabel Proofs.C14Extra.
 Import ListNotations.
 Local Close Scope Q_scope.
 
@@ -225,3 +225,72 @@ Theorem C14_cut_groups_iff_joined_by_short_branches :
       ((d == 0)%Q <-> exists g, In g (cut_groups maxlen t) /\ In a g /\ In b g).
 Proof. exact cut_groups_classes. Qed.
 Print Assumptions C14_cut_groups_iff_joined_by_short_branches.
+
+(** * inputs added to the judges in the later rounds *)
+(** homonymous tips: the judge and the model work on [relabel_tips t] (the k-th tip named n,
+    in the order of Tree.Tips(), renamed apart).  Only tip names change (same shape, branches,
+    inner names: [erase]), the path sums are the same position by position, and the renamed
+    tree has distinct leaves, so every theorem above applies to it.  (That the code lists
+    homonyms in Tips() order rests on sort.Slice being an insertion sort up to 12 elements:
+    an assumption about the Go runtime, exercised by the correspondence, bound stated in
+    driver/props/c14.py.) *)
+Theorem C14_relabel_only_tip_names : forall t seen, erase (fst (relabel t seen)) = erase t.
+Proof. exact relabel_erase. Qed.
+Print Assumptions C14_relabel_only_tip_names.
+
+Theorem C14_relabel_same_path_sums :
+  forall w t, map snd (depths w (relabel_tips t)) = map snd (depths w t).
+Proof. exact relabel_depths. Qed.
+Print Assumptions C14_relabel_same_path_sums.
+
+Theorem C14_relabel_in_domain :
+  forall t, wf t = true -> 2 <= degree t -> length (leaves t) < 200 ->
+    good (relabel_tips t) /\ leaves (relabel_tips t) = rl (leaves t) [].
+Proof. exact relabel_good. Qed.
+Print Assumptions C14_relabel_in_domain.
+
+Example C14_example_homonyms :
+  good (relabel_tips homonym_tree) /\
+  snd (to_matrix MBrlen (relabel_tips homonym_tree)) =
+  [[0; 5; 2; 4]; [5; 0; 5; 3]; [2; 5; 0; 4]; [4; 3; 4; 0]]%Q.
+Proof. exact homonym_example. Qed.
+Print Assumptions C14_example_homonyms.
+
+(** the cut for EVERY well-formed tree (single-child roots, negative or absent lengths): the
+    groups partition the tips (C14_cut_is_the_partition, C14_groups_partition_tips), are
+    pairwise disjoint, and - for a root with a single neighbour, which is a tip for the code -
+    two tips are in one bag iff no branch on their path is as long as the threshold *)
+Theorem C14_cut_groups_disjoint :
+  forall maxlen t, wf t = true -> NoDup (tip_names t) -> NoDup (concat (sgroups maxlen t false)).
+Proof. exact cut_groups_disjoint. Qed.
+Print Assumptions C14_cut_groups_disjoint.
+
+Theorem C14_cut_single_child_root :
+  forall maxlen n cm e ch,
+    let t := UNode n cm [Some (e, ch)] in
+    wf t = true -> NoDup (n :: leaves ch) ->
+    (forall a b d, In (a, b, d) (pairdists (w_long maxlen) ch) ->
+       ((d == 0)%Q <-> exists bag, In bag (cut maxlen t) /\ In a bag /\ In b bag)) /\
+    (forall a d, In (a, d) (depths (w_long maxlen) ch) ->
+       ((w_long maxlen e + d == 0)%Q <-> exists bag, In bag (cut maxlen t) /\ In n bag /\ In a bag)).
+Proof. exact cut_classes_root1. Qed.
+Print Assumptions C14_cut_single_child_root.
+
+Example C14_example_single_child_root_negative_length :
+  wf root1_tree = true /\ tip_names root1_tree = ["r"; "A"; "B"]%string /\
+  cut (1#2) root1_tree = [["r"]; ["A"]; ["B"]]%string /\
+  cut 1 root1_tree = [["A"; "B"; "r"]]%string /\
+  cut (-1#4) root1_tree = [["r"]; ["A"]; ["B"]]%string /\
+  cut (-1#8) root1_tree = [["r"]; ["A"]; ["B"]]%string.
+Proof. exact root1_example. Qed.
+Print Assumptions C14_example_single_child_root_negative_length.
+
+(** the average is the entrywise mean for every metric (C14_average_is_mean quantifies over
+    the metric); the non-default metrics on a concrete pair of trees *)
+Example C14_example_average_other_metrics :
+  avg_is (avg_matrix MBoots [c14_tree; avg_tree2]) ["a"; "b"; "c"; "d"]%string
+         [[0; 17#8; 19#8; 9#4]; [17#8; 0; 9#4; 19#8]; [19#8; 9#4; 0; 17#8]; [9#4; 19#8; 17#8; 0]]%Q = true /\
+  avg_is (avg_matrix MNone [c14_tree; avg_tree2]) ["a"; "b"; "c"; "d"]%string
+         [[0; 5#2; 3; 5#2]; [5#2; 0; 5#2; 3]; [3; 5#2; 0; 5#2]; [5#2; 3; 5#2; 0]]%Q = true.
+Proof. exact avg_example. Qed.
+Print Assumptions C14_example_average_other_metrics.
